@@ -11,10 +11,17 @@ def parse(text):
     return ExpressionParser().parse(text)
 
 
+def is_long(sh):
+    """a long-text start (or something rewritten from it): small constants, but far more nodes and
+    depth than the generated expressions; allowed up to 600 nodes / depth 300"""
+    return MR._max_abs_const(sh) <= 10 ** 6 and 160 < S.size(sh) <= 600 and S.depth(sh) <= 300 or (
+        MR._max_abs_const(sh) <= 10 ** 6 and S.size(sh) <= 600 and 40 < S.depth(sh) <= 300)
+
+
 def too_big(sh, big=False):
     """big=True: the caller drives no factoring rule, so constants may grow to 1e60"""
     limit = 10 ** 60 if big else MR.MAX_CONST
-    if MR._max_abs_const(sh) > limit or S.size(sh) > 160 or S.depth(sh) > 40:
+    if MR._max_abs_const(sh) > limit or ((S.size(sh) > 160 or S.depth(sh) > 40) and not is_long(sh)):
         return True
     # constant arithmetic evaluates constant sub-expressions exactly: a power with an exponent
     # beyond 4096 (e.g. 7^4294967297 after folding '4294967296 + 1') would take minutes and
